@@ -33,8 +33,15 @@ void freePages(void* p, unsigned) { std::free(p); }
 
 thread_local ThreadPool::per_signal ThreadPool::my_box;
 
-alignas(64) static unsigned char vf_fake_pool[sizeof(ThreadPool)];
-ThreadPool& getThreadPool(void) { return *reinterpret_cast<ThreadPool*>(vf_fake_pool); }
+// a TYPED, never-constructed pool object (a raw byte buffer would make every pointer stored in it - e.g. the
+// signals vector - a byte-level value that CBMC cannot constant-propagate)
+union VfFakePool {
+  ThreadPool tp;
+  VfFakePool() {}
+  ~VfFakePool() {}
+};
+static VfFakePool vf_fake_pool;
+ThreadPool& getThreadPool(void) { return vf_fake_pool.tp; }
 } // namespace substrate
 } // namespace galois
 
